@@ -388,6 +388,8 @@ def shot_noise(img, method='poisson', seed=None):
             else:
                 raise e
     else:
+        if np.min(img) < 0:
+            raise ValueError('Counts must be positive')
         # REF: https://stackoverflow.com/a/33701974
         with np.errstate(divide='raise'):
             try:
